@@ -113,16 +113,24 @@ def iteration_model(eng, it, fr):
             return z3.IntVal(0), (lambda i: VNONE), None
         keys, mp = T.dict_keys(d), T.dict_map(d)
         n = z3.Length(keys)
+        fr.ghost['iter_live_dict'] = d
+        from . import heapglue
+
+        def entry(i):
+            kt_ = eng.B.dict_key_at(eng, d, i)
+            k_, v_ = V(d.ty[1], kt_), V(d.ty[2], z3.Select(mp, kt_))
+            heapglue.note_entry_read(eng, d, k_, v_, z3.And(i >= 0, i < n))
+            return k_, v_
         if what == 'keys':
-            return n, (lambda i: V(d.ty[1], keys[i])), None
+            return n, (lambda i: entry(i)[0]), None
         if what == 'values':
-            return n, (lambda i: V(d.ty[2], z3.Select(mp, keys[i]))), None
-        return n, (lambda i: T.mk_tuple([V(d.ty[1], keys[i]), V(d.ty[2], z3.Select(mp, keys[i]))])), None
+            return n, (lambda i: entry(i)[1]), None
+        return n, (lambda i: T.mk_tuple(list(entry(i)))), None
     if isinstance(it, V) and it.ty[0] == 'dict':
         if it.ty[1] == ANY:
             return z3.IntVal(0), (lambda i: VNONE), None
         keys = T.dict_keys(it)
-        return z3.Length(keys), (lambda i: V(it.ty[1], keys[i])), None
+        return z3.Length(keys), (lambda i: V(it.ty[1], eng.B.dict_key_at(eng, it, i))), None
     if isinstance(it, V) and it.ty[0] == 'list':
         if it.ty[1] == ANY:
             return z3.IntVal(0), (lambda i: VNONE), None
@@ -131,6 +139,21 @@ def iteration_model(eng, it, fr):
         def at(i):
             item = V(it.ty[1], it.t[i])
             eng.B.on_elem_read(eng, it.t, i, item)
+            snap = eng.st.ghost.get('snapshots', {}).get(it.t.get_id())
+            if snap is not None:
+                d, what, nh = snap
+                keys, mp = T.dict_keys(d), T.dict_map(d)
+                inr = z3.And(i >= 0, i < z3.Length(keys))
+                kt_ = eng.B.dict_key_at(eng, d, i)
+                kv, vv = V(d.ty[1], kt_), V(d.ty[2], z3.Select(mp, kt_))
+                if what == 'values':
+                    eng.assume(z3.Implies(inr, item.t == vv.t))
+                else:
+                    eng.assume(z3.Implies(inr, item.t == T.mk_tuple([kv, vv]).t))
+                # keys of a dict are distinct: two positions hold the same key only if they are the same position
+                from . import heapglue
+                if eng.st.ghost.get('nhavoc', 0) == nh and not eng.st.ghost.get('loop_havoc_since', {}).get(it.t.get_id()):
+                    heapglue.note_entry_read(eng, d, kv, vv, inr)
             return item
         return z3.Length(it.t), at, None
     if isinstance(it, V) and it.ty[0] == 'gen':
@@ -247,6 +270,8 @@ def run_loop(eng, s, fr, anchor, spec, idxname, body_guard, bind, n, after_exit)
         if enter:
             if is_for:
                 bind(idx.t)
+                if spec.extra.get('snapshot_present'):
+                    snapshot_present_rule(eng, s, fr, idx.t)
             d0 = eng.pure_expr(spec.decreases, fr) if spec.decreases else None
             try:
                 eng.exec_block(s.body, fr)
@@ -272,3 +297,32 @@ def run_loop(eng, s, fr, anchor, spec, idxname, body_guard, bind, n, after_exit)
         # the index stays readable after the loop (post-conditions may mention it) unless shadowed
         if saved_idx is not None and False:
             fr.ghost[idxname] = saved_idx
+
+
+def snapshot_present_rule(eng, s, fr, idx_t):
+    """TRUSTED loop rule (listed among the assumptions).  `for x in list(T.values())` over a table snapshot, where the
+    body makes no call other than deleting the current element's own key (checked syntactically below): keys are
+    distinct, earlier iterations removed only their own keys, nothing else ran, hence the current element is still
+    in the table under its own key when its iteration starts."""
+    from .engine import Unsupported
+    it = fr.ghost.get('iter_seq')
+    snap = eng.st.ghost.get('snapshots', {}).get(it.t.get_id()) if it is not None else None
+    if snap is None:
+        raise Unsupported('snapshot_present: the loop does not iterate a table snapshot')
+    for st_ in s.body:
+        for n in ast.walk(st_):
+            if isinstance(n, ast.Call) and not eng.B.is_logging_call(n):
+                raise Unsupported('snapshot_present: the loop body makes a call (%s)' % ast.dump(n.func)[:60])
+    d0, what, nh = snap
+    owner = None
+    from . import heapglue
+    prov = heapglue.table_prov(eng, d0)
+    if prov is None:
+        raise Unsupported('snapshot_present: snapshot is not of a declared table')
+    ref, field = prov
+    cur = heapglue.heap_read(eng, ref, field)
+    k0 = eng.B.dict_key_at(eng, d0, idx_t)
+    elem = z3.Select(T.dict_map(d0), k0)
+    eng.assume(z3.Select(T.dict_has(cur), k0))
+    eng.assume(z3.Select(T.dict_map(cur), k0) == elem)
+    heapglue.note_entry_read(eng, cur, V(cur.ty[1], k0), V(cur.ty[2], elem), z3.BoolVal(True))
